@@ -7,6 +7,7 @@ import Nject.Helpers
 import Nject.Condense
 import Nject.Reorder
 import Nject.ReorderAlg
+import Nject.ReorderCond
 import Nject.PostAct
 /-
   Line-protocol driver: reads the case blocks the Go harness writes, rebuilds the compiled
@@ -327,7 +328,16 @@ def runReorderModel (a : CaseAcc) : List String :=
     | none => []
     | some asm =>
       let (fs, gave, fuelOut) := reorderModel stdTyInfo asm.funcs a.initSig.isSome
-      [s!"m4o order={fmtTys (fs.map (·.id))} gaveup={fmtTys gave} fuel={if fuelOut then "FUEL" else "ok"}"]
+      -- the order condition of the placement theorem, for every provider still marked Reorder
+      let cfs := clearReorder asm.funcs
+      let live := (List.range cfs.length).filterMap fun i =>
+        if (cfs.getD i default).reorder then
+          some (match liveHypSearch stdTyInfo cfs a.initSig.isSome i with
+            | some kx => s!"{(cfs.getD i default).id}:{kx}"
+            | none => s!"{(cfs.getD i default).id}:none")
+        else none
+      [s!"m4o order={fmtTys (fs.map (·.id))} gaveup={fmtTys gave} fuel={if fuelOut then "FUEL" else "ok"}",
+       "m4live " ++ (if live.isEmpty then "-" else " ".intercalate live)]
 
 /-- the hypotheses of the fixpoint theorems (NjectProps/C15b.lean), evaluated on the model's own state
     before the final validation -/
